@@ -452,6 +452,11 @@ func runC06(r *Run) {
 			}
 		}
 	}
+	// encoding.TextMarshaler values: printed as the marshalled text, quoted like a string (model: VStr)
+	for _, rec := range textMarshalerCorpus("color") {
+		one(rec, "corpus-textmarshaler")
+		r.Dist["kind=textm"]++
+	}
 	for _, rec := range encCorpus("color", prof) {
 		one(rec, "corpus")
 	}
